@@ -151,6 +151,10 @@ def rand_tspec(rng, o, types, depth, complex_ok=True):
             inner = inner['array']
         # the member's own occurrence attributes would constrain the item count: keep arrays 0..n
         inner = _strip_occ(inner)
+        if getattr(o, 'array_item_occ', False) and rng.random() < .35:
+            # ... unless asked for: the occurrence attributes of the item type of an Array say how many items it holds
+            inner['min_occurs'] = rng.choice((0, 1, 2))
+            inner['max_occurs'] = rng.choice((max(inner['min_occurs'], 1), inner['min_occurs'] + 1, 3, 5))
         return occ(rng, {'array': inner})
     if o.seqs and r < .58 and depth > 0:
         inner = rand_tspec(rng, o, types, 0, complex_ok)
@@ -342,6 +346,8 @@ class Built(object):
             kw['min_occurs'] = t['min_occurs']
         if 'nillable' in t:
             kw['nillable'] = t['nillable']
+        if 'max_occurs' in t:
+            kw['max_occurs'] = t['max_occurs']          # (only on the item type of an array)
         if 'choice' in t:
             kw['xml_choice_group'] = t['choice']
         if 'prim' in t:
@@ -779,8 +785,8 @@ def gen_value(rng, ir, t, depth=3, top=False, alphabet='xml', subclass_ok=False)
                     prev.setdefault(ft['ref'], v)
         return out
     if 'array' in t:
-        n = rng.choice((0, 1, 2, 3, 5))
         inner = t['array']
+        n = rng.choice([k_ for k_ in (0, 1, 2, 3, 5) if inner.get('min_occurs', 0) <= k_ <= inner.get('max_occurs', 10 ** 9)] or [inner.get('min_occurs', 0)])
         out = []
         for _ in range(n):
             v = gen_value(rng, ir, inner, depth - 1, top=True, alphabet=alphabet, subclass_ok=subclass_ok)
